@@ -58,6 +58,22 @@ CHECKS = {
         note="Bounded: palette formats only, single faults (15% cumulative); records whose damaged cost field asks for > ~30000 rounds / bcrypt cost > 8 are "
              "counted but not pushed through verify. The closing clause of C08 (no other spelling of the same bits accepted) is deliberately not enforced.",
         design_ref="DESIGN.md section 4 and Appendix C, C08"),
+    "C10": dict(
+        level="fault_enumeration",
+        technique="deterministic simulation with enumerated fault points: for each seeded (configuration, change) every failure point of the rebuild is visited (k-th using() call raising x 5 exception types, 21 kinds of invalid item x every insertion position, policy-file faults per 64-byte block / line boundary), observable snapshot compared before/after",
+        text="The policy lives in three durable forms (dict, INI text in a simulated policy file, the live object); an admin changes it and the "
+             "application restarts from an exported form. For each generated (configuration, change) the failure space of the rebuild is "
+             "enumerated, not sampled: a counting dry run learns N, the number of customisation calls, then the change is attempted with the "
+             "k-th call raising for every k in 1..N and five exception types (FaultyHasher = subclass of the real handler given in schemes=); "
+             "every kind of invalid item at every insertion position of the change; the policy file missing, unreadable (3 errnos), failing "
+             "after each 64-byte block, truncated at every line boundary and inside the header, wrong section, not UTF-8. After each attempt "
+             "a structural snapshot, and after each block the full snapshot (to_dict, to_string, schemes, defaults per category, context_kwds, "
+             "identify / needs_update per category / verify right+wrong on probe hashes at low/middle/high cost, hash() under a pinned random "
+             "source) must be identical. Export/import through dict, resolved dict, INI string (two sections), file and copy must preserve the "
+             "snapshot; update() must equal a rebuild from the merged dictionary.",
+        note="Enumeration is complete per generated (configuration, change) within: <=5 schemes, <=2 categories, the 21 invalid-item kinds, 5 exception "
+             "types; configurations themselves are sampled. Upper-case category names do not survive INI (ConfigParser lower-cases) and are outside the domain.",
+        design_ref="DESIGN.md section 4, C10"),
     "C13": dict(
         level="exploration",
         technique="deterministic simulation (seeded discrete-event histories under a simulated clock) with an independent RFC 4226/6238 reference as oracle",
@@ -103,6 +119,20 @@ CHECKS = {
         note="<=6 users x <=3 realms, 5 passwords, <=40 ops. Nothing is asserted about the content of a file torn by a failed save. Plaintext-scheme "
              "records only in UTF-8 files. Trusted: the independent reader/document model (refmodels/htfile.py).",
         design_ref="DESIGN.md section 4, C16"),
+    "C18": dict(
+        level="exploration",
+        technique="deterministic simulation: seeded disable/enable/login histories on stored records interleaved with policy updates and export/import restarts; reference grammar of disabled records; dummy-verification cost observed through a counting hasher at the digest seam",
+        text="Account records (a hash of any palette scheme, None, empty, a bare marker, either marker style with an embedded original, a "
+             "Django-style unusable password) evolve under disable (with/without the current hash), disable again, enable, logins with the "
+             "right / wrong / empty password and with the record text itself, is_enabled, with unix_disabled (markers '!'/'*', configured "
+             "or default) or django_disabled at a random list position, and with policy updates and restarts in between. A reference grammar "
+             "decides every answer; 'verification against None costs a dummy verification' is observed deterministically as digest "
+             "computations of the default scheme counted through a counting subclass given in schemes= (one per call, one more right after "
+             "construction or a policy (re)load). Weaker fit: disable/enable are string functions; the simulator supplies histories and the "
+             "counting seam.",
+        note="Strings the context attributes to another scheme than the grammar expects ('*' + 40 hex is also mysql41) are outside the model; mysql41 "
+             "is therefore not combined with disabled-account schemes.",
+        design_ref="DESIGN.md section 4, C18"),
     "C19": dict(
         level="exploration",
         technique="deterministic simulation of real threads: seeded baton-passing scheduler pre-empting at sys.settrace line/opcode events (sticky walk, PCT, hot-spot, uniform), fork-per-run fresh first-use state, cooperative locks; per-thread outcome vs single-thread outcome",
